@@ -388,7 +388,7 @@ func init() {
 			return "case = one command program run through the real connection loop with a reference store (Redis-like primitives over an executable model state, one mutex) as handler, and through the executable Redis model directly; every reply compared as decoded values (status vs bulk, set/hash order, error text and float formatting insensitive) and the final store contents compared with the model state. Exhaustive grids: GETRANGE and SUBSTR on strings of length 0..6 x start,end in -9..9 (and a missing key), and on strings of length 0..3 x start,end over 11 values from -2^63 to 2^63-1; ZREVRANGE on sets of size 0..5 x start,stop in -7..7 x {plain, WITHSCORES} x {distinct, tied scores}; ZREVRANGEBYSCORE over 6x6 bounds x inclusive/exclusive x WITHSCORES x tied with LIMIT; counters at the 64-bit boundary and on non-integers, and on every stored string of length <= 3 over {-, +, 0, 1, 9, space, .}. Then seeded random programs (<=25 steps, 3 keys, value pool with integers near +-2^63, non-integers, empty, binary) over PING, ECHO, MSET, MSETNX, MGET, APPEND, INCR/DECR/INCRBY/DECRBY, STRLEN, GETRANGE, HMSET, HMGET, HEXISTS, HKEYS, HVALS, HLEN, HSTRLEN, SCARD, SISMEMBER, ZCARD, ZREVRANGE, ZREVRANGEBYSCORE, CONFIG SET/GET, and - as a logical flag without a clock - times to live (EXPIRE a day away, SET with KEEPTTL / EX / PX, TTL: counters and APPEND keep a key's time to live, SET/MSET/GETSET drop it). distinct_nontrivial = distinct (command argv, model-state tags) steps"
 		},
 		Exhaustive:  func(string) bool { return false },
-		Assumptions: []string{"the executable model in /verif/harness/model (written from the Redis command reference, own unit tests) is the reference", "integer syntax follows Redis string2ll (no '+', no leading zeros); such tokens are not generated"},
+		Assumptions: []string{"the executable model in /verif/harness/model (written from the Redis command reference, own unit tests) is the reference", "integer syntax follows Redis string2ll (no '+', no leading zeros); such tokens are not generated", "each key is used with one data type (string commands on string keys, hash commands on hash keys, ...): what MGET/MSETNX answer for a key holding another type is not explored"},
 		Setup: func(tier string, seed uint64) int {
 			c12.seed, c12.tier = seed, tier
 			c12buildGrids(true)
